@@ -67,7 +67,7 @@ for p in props:
     else: na.append({"property_id":p['id'],"reason":"check under construction in this session (engine exists; harness not yet registered)"})
 fixes=subprocess.check_output(['git','-C','/repo','log','--format=%h','8f6583a..HEAD']).decode().split()
 m={"version":1,
- "setup_cmd":"cd /verif/engine && GOFLAGS=-mod=mod GOPROXY=off GOSUMDB=off GOTOOLCHAIN=local go build -o /verif/bin/vcheck ./cmd/vcheck",
+ "setup_cmd":"cd /verif/engine && GOFLAGS=-mod=mod GOPROXY=off GOSUMDB=off GOTOOLCHAIN=local go build -o /verif/bin/vcheck ./cmd/vcheck && /verif/bin/vcheck SELFTEST",
  "hooks":{"guard":"verif","enable":"no source hooks: harness files (/verif/harness/<pkg>/zz_verif_*.go) are injected through go/packages Overlay and `go test -overlay`; nothing under /repo is modified by the checks","baseline_off_cmd":"cd /repo && go test -vet=off -count=1 -timeout 25m ./...","source_commits":[],"add_only":True},
  "engines":[{"name":"symgo","path":"/verif/engine","serves_properties":sorted(claimed),"kind_free_text":"own concolic symbolic executor over go/ssa (x/tools v0.29.0): concrete shadow + SMT bit-vector terms, generational search with constraint independence, z3 -in for branch feasibility and assertion queries, native replay of every path witness"}],
  "checks":checks,
